@@ -21,7 +21,14 @@ STATEFUL = ['1 / 3', '1 / 4', '10 / 4', '1 / 1048576', '2 / 3 + 1 / 4', 'x / 3',
             'len([1, 2])', 'len("abc") + len([1])', 'map([[1], [2, 3]], len)', 'f2 = v => len(v); [f2([1]), f2([1, 2])]',
             'str(1) + str([1])', 'sorted([3, 1, 2])', 'max([1, 5, 2])', '"a\\nb" + "c"', '"x" + "\\t"', '(1,\n2) => 3', '[1,\n 2,\n 3][1]',
             'n = 0; n += 1; n', 't = [0]; t[0] += 1; t', 'u = {"k": 0}; u["k"] += 1; u', '5 * (60 * 60)', 'map([1, 2, 3], v => v * (60 * 60))',
-            'e = [] ; e', 'p = e; p.push(1); [e, p]', '1 if 1 / 3 > 0.3 else 2', 'abs(-1 / 3)', 'int(7 / 2)', 'sum([1 / 3, 1 / 3, 1 / 3])']
+            'e = [] ; e', 'p = e; p.push(1); [e, p]',
+            # results of library calls that get mutated, the same search twice, texts that differ only inside a string literal or a
+            # %...% name, equal numbers in different spellings
+            '"2024-05-17" | match_all("\\d+") | pop', 'm = match_all("a1b22", "\\d+"); m.push("x"); m', 'match_groups("k=v", "(\\w)=(\\w)") | pop',
+            'match_groups("k=v", "(\\w)=(\\w)")', 'match_all("a1b22", "\\d+")', 'split("a,b,c", ",") | pop', 'sorted([3, 1, 2]) | pop', 'keys({"a": 1}) | push("z")',
+            'x == "a  b"', 'x == "a b"', '"a  b"', '"a b"', '"a\tb" + ""', '"a b" + ""', '%a  b%', '%a b%', 'len("  ")', 'len(" ")', '["x  y", "x y"]',
+            '"Total: " + 2.50', '"Total: " + 2.5', 'str(1.0)', 'str(1)', 'str(1.00)', '{1.0: "a"}', '{1: "a"}', '[2.50, 2.5, 2.500]', '0.10 + 0', '0.1 + 0',
+            'True', '1', 'False', '0', '[True, 1, False, 0]', '1 / 3 + 1', '(1 + 1) / (1 + 1 + 1)', 'None', '"None"', '1 if 1 / 3 > 0.3 else 2', 'abs(-1 / 3)', 'int(7 / 2)', 'sum([1 / 3, 1 / 3, 1 / 3])']
 
 CALLSITES = ['len([1, 2])', 'str(2)', 'sum([1, 2])', 'max([1, 2])', 'list(1, 2)', 'f2 = v => len(v); [f2([1]), f2([1, 2])]',
              'map([[1], [2, 3]], v => len(v))', 'len("abc") + len([1])']
